@@ -44,7 +44,10 @@ LEVEL_TEXT = ("Bounded-exhaustive differential execution: every listed instructi
               "lattice is executed on the host CPU and through miasm's Python jitter (thorough: GCC jitter too); registers, vector "
               "registers, memory and architecturally defined flags must be equal, a native #DE must be a division exception in miasm.")
 LEVEL_NOTE = ("Trusted: the host CPU (AMD EPYC), gcc, native/x86host.c, the SDM undefined-flag table in this file. Operand values "
-              "are boundary values, not all values. 32-bit mode: only mode-invariant encodings, executed natively in 64-bit mode "
+              "are boundary values, not all values (per-form budget rule: value levels are lowered from the last operand until the "
+              "product fits the cap recorded in bounds). Quick: Python jitter, every third admitted 32-bit form. Thorough: Python "
+              "jitter on the full lattice; the GCC jitter (run in a forked child so that a crash of jitted code is an outcome, not a "
+              "harness failure) on every fourth form with the quick lattice and on every floating point form. 32-bit mode: only mode-invariant encodings, executed natively in 64-bit mode "
               "from a state with zero upper halves (no DAA/DAS/AAA/AAS/AAM/AAD/PUSHA/POPA/INTO/BOUND/ARPL, no 0x40-0x4F INC/DEC, no 16-bit "
               "addressing, no stack-width dependent forms). x87, MMX, privileged and control-flow instructions are outside the "
               "alphabet. Scalar/packed floating point arithmetic cannot be evaluated by the Python backend (skipped and counted); it "
